@@ -28,7 +28,7 @@ ASSUMPTIONS = [
     "symmetric reduction: the code is assumed not to depend on the numeric value of inode numbers in the enumerated "
     "part; the random part uses arbitrary numbers and two device ids",
 ]
-MINIMUMS = {"quick": {"diffs_judged": 30000, "nontrivial_pairs": 5000, "entrypoint_cm_judged": 1000}, "thorough": {"diffs_judged": 400000}}
+MINIMUMS = {"quick": {"diffs_judged": 30000, "nontrivial_pairs": 5000, "entrypoint_cm_judged": 1000, "invivo_diffs_judged": 300}, "thorough": {"diffs_judged": 400000}}
 WALL_CAP = {"quick": 120, "thorough": 1800}
 
 PATHS = ["a", "b", "a/a", "a/b", "b/a", "b/b"]
@@ -261,6 +261,45 @@ def mutate_state(r: random.Random, st, pool):
     return st
 
 
+def run_invivo(b: Batch, seed, n):
+    """Postcondition wrapper on DirectorySnapshotDiff.__init__: every diff the real PollingEmitter builds while hostile
+    histories run on the real disk is judged by the same laws (the class itself is patched, so references bound earlier
+    - `from ... import DirectorySnapshotDiff` in polling.py - go through the wrapper too; the counter proves it)."""
+    from watchdog.utils import dirsnapshot
+
+    from wdverif import fshist
+    from wdverif.props import c07
+
+    orig = dirsnapshot.DirectorySnapshotDiff.__init__
+    seen = {"n": 0}
+
+    def wrapped(self, ref, snapshot, *, ignore_device=False):
+        orig(self, ref, snapshot, ignore_device=ignore_device)
+        if ignore_device or isinstance(ref, dirsnapshot.EmptyDirectorySnapshot):
+            return
+        seen["n"] += 1
+        if difflaws.one_path_per_inode(ref) and difflaws.one_path_per_inode(snapshot):
+            for law, msg in difflaws.check_diff(ref, snapshot, self):
+                b.violation(f"difflaw:invivo:{law}", "diff built by the polling emitter on the real disk: " + msg, witness={"law": law})
+            b.count("invivo_diffs_judged")
+
+    dirsnapshot.DirectorySnapshotDiff.__init__ = wrapped
+    try:
+        r = rng_for(seed, "c09v")
+        for i in range(n):
+            if b.expired():
+                break
+            cfg = c07.hostile_cfg(r, seed * 7919 + i, "polling")
+            cfg["delete_root"] = False
+            fshist.History(cfg).run()
+            b.case()
+            b.nontrivial(["invivo", seed, i])
+    finally:
+        dirsnapshot.DirectorySnapshotDiff.__init__ = orig
+    if seen["n"] == 0:
+        b.inconc("in-vivo wrapper on DirectorySnapshotDiff.__init__ was never reached")
+
+
 def plan(tier, seed, jobs):
     refs = len(canonical_refs())
     specs = []
@@ -269,7 +308,11 @@ def plan(tier, seed, jobs):
             specs.append({"kind": "enum", "ref_lo": i, "ref_hi": i + 1, "stride": 3, "offset": (seed + i) % 3, "seed": seed})
         for j in range(jobs * 2):
             specs.append({"kind": "random", "n": 1500, "seed": seed, "j": j, "budget_s": 40})
+        for j in range(4):
+            specs.append({"kind": "invivo", "n": 25, "seed": seed * 100 + j, "budget_s": 30})
     else:
+        for j in range(jobs):
+            specs.append({"kind": "invivo", "n": 400, "seed": seed * 100 + j, "budget_s": 300})
         for i in range(refs):
             specs.append({"kind": "enum", "ref_lo": i, "ref_hi": i + 1, "stride": 1, "offset": 0, "seed": seed})
         for j in range(jobs * 6):
@@ -309,6 +352,8 @@ def run_batch(spec):
             if n % 10 == 0:
                 judge_device(b, s0, rec)
                 judge_entrypoints(b, s0, s1, rec)
+    elif kind == "invivo":
+        run_invivo(b, spec["seed"], spec["n"])
     elif kind == "pair":
         s0 = {k: Ent(*v) for k, v in spec["s0"]}
         s1 = {k: Ent(*v) for k, v in spec["s1"]}
